@@ -383,6 +383,21 @@ def build(run):
          lambda o: ((), (), ()), modes=("complex",))
     case("Outer[scalar,vec]", (lambda: ([a0, Opq("v", (2,))], lambda o: C.Outer(o[0], o[1]))),
          lambda w, o, c, e: N.mul(N.conj(D(w, o[0])), D(w, o[1], c)), lambda o: ((2,), (), ()), modes=("complex",))
+    # outer(a, b) = conj(a) (x) b whichever operand is the scalar (class constructor and the public operator)
+    for onm_, obld_ in (("Outer", lambda o: C.Outer(o[0], o[1])), ("outer()", lambda o: ufl.outer(o[0], o[1]))):
+        case(f"{onm_}[vec,scalar]", (lambda obld_=obld_: ([Opq("v", (2,)), b0], obld_)),
+             lambda w, o, c, e: N.mul(N.conj(D(w, o[0], c)), D(w, o[1])), lambda o: ((2,), (), ()), modes=("complex",))
+        case(f"{onm_}[mat2x3,scalar]", (lambda obld_=obld_: ([Opq("A", (2, 3)), b0], obld_)),
+             lambda w, o, c, e: N.mul(N.conj(D(w, o[0], c)), D(w, o[1])), lambda o: ((2, 3), (), ()), modes=("complex",))
+        case(f"{onm_}[scalar,mat2x3]", (lambda obld_=obld_: ([a0, Opq("A", (2, 3))], obld_)),
+             lambda w, o, c, e: N.mul(N.conj(D(w, o[0])), D(w, o[1], c)), lambda o: ((2, 3), (), ()), modes=("complex",))
+        case(f"{onm_}[scalars]", (lambda obld_=obld_: ([a0, b0], obld_)),
+             lambda w, o, c, e: N.mul(N.conj(D(w, o[0])), D(w, o[1])), lambda o: ((), (), ()), modes=("complex",))
+        case(f"{onm_}[vec2,vec3]", (lambda obld_=obld_: ([Opq("u", (2,)), Opq("v", (3,))], obld_)),
+             lambda w, o, c, e: N.mul(N.conj(D(w, o[0], c[:1])), D(w, o[1], c[1:])), lambda o: ((2, 3), (), ()), modes=("complex",))
+    for inm_, ibld_ in (("inner()", lambda o: ufl.inner(o[0], o[1])), ("dot()", lambda o: ufl.dot(o[0], o[1]))):
+        case(f"{inm_}[scalars]", (lambda ibld_=ibld_: ([a0, b0], ibld_)),
+             (lambda w, o, c, e, inm_=inm_: N.mul(D(w, o[0]), N.conj(D(w, o[1])) if inm_ == "inner()" else D(w, o[1]))), lambda o: ((), (), ()), modes=("complex",))
     case("Dot[scalars]", (lambda: ([a0, b0], lambda o: C.Dot(o[0], o[1]))), lambda w, o, c, e: N.mul(D(w, o[0]), D(w, o[1])),
          lambda o: ((), (), ()), modes=("complex",))
     va, vb = Opq("a", (2,)), Opq("b", (2,))
